@@ -299,3 +299,50 @@ Proof.
   - cbn. repeat constructor; cbn; intuition discriminate.
   - vm_compute. reflexivity.
 Qed.
+
+(* ------------------------------------------------------------------ *)
+(* The client's map entries carry the leader address besides id and range (internal.Shard); an assignment is
+   published with an empty leader while the shard has none (bootstrap, new namespace, election).  [update]
+   never looks at the leader: with ANY payload attached to the shards -- [option N] for "leader known or not" --
+   the ids and ranges of the map after the update are those of the leaderless model, so
+   c18_client_update_preserves_partition holds whether or not leaders are known, and every entry of the result
+   is an entry of the old map or of the update, payload included. *)
+Section Payload.
+  Variable L : Type.
+  Definition lshard : Type := (shard * L)%type.
+
+  Definition update_one_l (m : list lshard) (u : lshard) : list lshard :=
+    if has_id (sid (fst u)) (map fst m)
+    then u :: filter (fun s => negb (Z.eqb (sid (fst s)) (sid (fst u)))) m
+    else u :: filter (fun s => negb (overlap (fst u) (fst s))) m.
+
+  Definition client_update_l (m us : list lshard) : list lshard := fold_left update_one_l us m.
+
+  Lemma update_one_l_fst m u : map fst (update_one_l m u) = update_one (map fst m) (fst u).
+  Proof.
+    unfold update_one_l, update_one, remove_id. destruct (has_id (sid (fst u)) (map fst m)); cbn [map];
+      rewrite filter_map_comm; reflexivity.
+  Qed.
+
+  Lemma client_update_l_fst us : forall m,
+    map fst (client_update_l m us) = client_update (map fst m) (map fst us).
+  Proof.
+    unfold client_update_l, client_update. induction us as [|u us IH]; intros m; cbn [fold_left map]; [reflexivity|].
+    rewrite IH, update_one_l_fst. reflexivity.
+  Qed.
+
+  Lemma client_update_l_In us : forall m x, In x (client_update_l m us) -> In x m \/ In x us.
+  Proof.
+    unfold client_update_l. induction us as [|u us IH]; intros m x Hx; cbn [fold_left] in Hx; [left; exact Hx|].
+    destruct (IH _ _ Hx) as [H|H]; [|right; right; exact H].
+    unfold update_one_l in H. destruct (has_id (sid (fst u)) (map fst m)); destruct H as [<-|H];
+      try (right; left; reflexivity); apply filter_In in H; tauto.
+  Qed.
+
+  Theorem client_update_partition_with_leaders (m upd : list lshard) :
+    disjoint_map (map fst m) -> partition (map fst upd) -> NoDup (map sid (map fst upd)) ->
+    (forall x u, In x (map fst m) -> In u (map fst upd) -> sid x = sid u -> x = u) ->
+    Permutation (map fst (client_update_l m upd)) (map fst upd) /\
+    disjoint_map (map fst (client_update_l m upd)).
+  Proof. intros H1 H2 H3 H4. rewrite client_update_l_fst. exact (client_update_partition _ _ H1 H2 H3 H4). Qed.
+End Payload.
